@@ -337,6 +337,47 @@ def scorer_cli(rdir, enc, cands, first, limit):
     return None
 
 
+def rescoring_after_edit(t, res, tr, cands, limit, opts):
+    from . import tools
+    args = ["-r", os.path.basename(tr.rule_dir), t.choice(["--max_length", "--min_length"]), str(t.between(3, 9))]
+    _text, exc = tools.run_tool("edit_rules", args)
+    if exc:
+        return None                 # edit_rules is C20's subject
+    res.faults["ruleset_edited_between_two_scorer_processes"] += 1
+    try:
+        strings, mass, n, err = run_guesser(tr.rule_dir, skip_brute=False)
+    except Exception:
+        return None                 # nothing left to guess from
+    if err:
+        return None
+    with guesser.streams():
+        try:
+            sc = make_scorer(tr.rule_dir, limit)
+        except Exception:
+            import traceback
+            return ("scorer_cannot_load", {"after": "edit_rules " + " ".join(args), "exception": traceback.format_exc()[-600:]})
+        if sc is None:
+            return None
+        for s in cands:
+            try:
+                pw, cat, p, omen = sc.parse(s)
+            except Exception:
+                import traceback
+                return ("scorer_raised", {"string": s, "after": "edit_rules " + " ".join(args), "exception": traceback.format_exc()[-600:]})
+            if cat in ("e", "w") or not p or p <= 0:
+                continue
+            got = strings.get(s)
+            if not got:
+                if unrebuildable(s):
+                    continue
+                return ("scored_string_never_guessed", {"string": s, "probability": p, "category": cat,
+                                                        "history": "scored, then edit_rules " + " ".join(args) + ", then scored by a new scorer"})
+            if not any(abs(g - p) <= 1e-9 * max(abs(p), abs(g)) for g in got):
+                return ("score_differs_from_guess_probability", {"string": s, "score": p, "guesser": got[:4],
+                                                                 "history": "after edit_rules " + " ".join(args)})
+    return None
+
+
 def run_c13(t, tier, res):
     from lib_trainer.detection_rules.email_detection import email_detection
     from lib_trainer.detection_rules.keyboard_walk import detect_keyboard_walk
@@ -454,6 +495,13 @@ def run_c13(t, tier, res):
     if not res.violations and t.chance(1, 3):
         prob = scorer_cli(tr.rule_dir, opts["encoding"], cands, first, limit)
         res.stats["scorer_cli_runs"] += 1
+        if prob:
+            res.violate("C13", prob[0], prob[1])
+            return
+    # the ruleset is edited in place (edit_rules keeps the uuid) and a new scorer process image scores the same candidates:
+    # its promises are about the ruleset as it is now
+    if not res.violations and t.chance(1, 3):
+        prob = rescoring_after_edit(t, res, tr, cands, limit, opts)
         if prob:
             res.violate("C13", prob[0], prob[1])
             return
